@@ -852,12 +852,12 @@ def c16(case):
         if isinstance(e, KeyboardInterrupt) and case.get('exc') != 'KeyboardInterrupt':
             raise
         return ['%s escaped from Solve (failure injected at evaluation %d)' % (type(e).__name__, k)]
+    if p.calls < k:
+        return []  # the run stopped before the failing call (accuracy reached, or the method's guard at binary64 resolution): nothing injected
     ref_case = dict(case); ref_case['fail_at'] = None
     p0, s0 = build(ref_case)
     with H.quiet():
         s0.DoGlobalIteration(k - 1)
-    if p.calls < k:
-        return []  # the run stopped before the failing call: nothing injected
     if sol.numberOfGlobalTrials != k - 1:
         fails.append('failure at evaluation %d: reported trial count %d, expected %d' % (k, sol.numberOfGlobalTrials, k - 1))
     if [tuple(y) for y, _ in p.log] != [tuple(y) for y, _ in p0.log]:
